@@ -294,23 +294,37 @@ class _EvaluatorCompiler:
     visit_ge_binary_op = _straight_evaluate
     visit_eq_binary_op = _straight_evaluate
 
+    def _in_evaluate(self, eval_left, eval_right, negate):
+        def evaluate(obj):
+            left_val = eval_left(obj)
+            right_val = eval_right(obj)
+            if left_val is _EXPIRED_OBJECT or right_val is _EXPIRED_OBJECT:
+                return _EXPIRED_OBJECT
+            elif right_val is None:
+                return None
+            elif not right_val:
+                # IN against an empty set is false, NOT IN is true,
+                # also for a NULL left side
+                return negate
+            elif left_val is None or left_val is _NO_OBJECT:
+                return None
+            elif left_val in right_val:
+                return not negate
+            elif None in right_val:
+                # no match, but comparison to a NULL member is unknown
+                return None
+            else:
+                return negate
+
+        return evaluate
+
     def visit_in_op_binary_op(self, operator, eval_left, eval_right, clause):
-        return self._straight_evaluate(
-            lambda a, b: a in b if a is not _NO_OBJECT else None,
-            eval_left,
-            eval_right,
-            clause,
-        )
+        return self._in_evaluate(eval_left, eval_right, False)
 
     def visit_not_in_op_binary_op(
         self, operator, eval_left, eval_right, clause
     ):
-        return self._straight_evaluate(
-            lambda a, b: a not in b if a is not _NO_OBJECT else None,
-            eval_left,
-            eval_right,
-            clause,
-        )
+        return self._in_evaluate(eval_left, eval_right, True)
 
     def visit_concat_op_binary_op(
         self, operator, eval_left, eval_right, clause
